@@ -276,15 +276,30 @@ fn run_c16(args: &Args) -> i32 {
     let findings = report::load_findings(&paths).unwrap_or_default();
     let mut seen: std::collections::BTreeSet<String> = Default::default();
     let mut minimised = vec![];
+    let mut hang_reports = 0;
     for mut v in violations {
         if !seen.insert(v.key.clone()) {
+            continue;
+        }
+        // a change that makes thousands of inputs hang gives thousands of
+        // content keys: report a handful
+        if v.class == "hang" && minimised.iter().filter(|m: &&Violation| m.class == "hang").count() >= 5 {
             continue;
         }
         let known = findings.iter().any(|f| f.property == "C16" && f.status == "known" && f.key == v.key);
         if !known && minimised.iter().filter(|m: &&Violation| !findings.iter().any(|f| f.key == m.key)).count() < 12 {
             if let Some(case) = c16::Case::from_json(&v.case) {
-                if c16::still_fails(&env, &ctx, &case, &v.key) {
+                if v.class == "hang" && hang_reports >= 2 {
+                    // further hangs are reported unminimised
+                } else if c16::still_fails(&env, &ctx, &case, &v.key) {
                     let m = c16::minimise(&env, &ctx, &case, &v.key);
+                    if v.class == "hang" {
+                        hang_reports += 1;
+                        let o = c16::run_case(&env, &m);
+                        if let Some((_, k, _)) = c16::judge(&ctx, &m, &o) {
+                            v.key = k;
+                        }
+                    }
                     v.case = m.to_json();
                 } else {
                     v.what.push_str(" [WARNING: did not reproduce on re-run]");
